@@ -369,3 +369,83 @@ pub fn gaps(ctx: &Ctx) -> Stats {
     st.set_extra("gap_lengths", Json::s("0..=140, 250..=260, 511..513, 1023..1025"));
     st
 }
+
+/// thorough only: one sequence of 2^32 + 2^20 bases through both minimiser iterators in lock step: run count,
+/// agreement of the two iterators on every run, positions never decreasing and < len, tail runs against the
+/// brute force on the tail slice, number of attached w-mers against the analytic count
+pub fn gigabases(ctx: &Ctx) -> Stats {
+    let mut st = Stats::new();
+    let mut rng = Rng::keyed(ctx.seed, "c09.gigabases", 0);
+    let block: Vec<u8> = (0..1 << 20).map(|_| *rng.pick(b"ACGT")).collect();
+    let len = (1usize << 32) + (1usize << 20) + 77;
+    let (w, m) = (15usize, 7usize);
+    let mut seq: Vec<u8> = Vec::with_capacity(len);
+    while seq.len() < len {
+        let n = (len - seq.len()).min(block.len());
+        seq.extend_from_slice(&block[..n]);
+    }
+    let n_pos = len - 3000;
+    seq[n_pos] = b'N';
+    let case = Json::obj().set("layout", Json::s(format!("{} bases: a random 1 MiB block repeated, N at {}", len, n_pos))).set("w", Json::u(w)).set("m", Json::u(m));
+    note_current_case(ctx, &case);
+    st.case(true, mix(len as u64));
+    st.sample(case.clone());
+    let expected_wmers: u64 = ((n_pos - w + 1) + (len - n_pos - 1 - w + 1)) as u64;
+    let r = guarded(|| {
+        let mut a = KmerMinimiserGenerator::new(&seq, w, m);
+        let mut b = MinimiserGenerator::new(&seq, w, m);
+        let mut runs = 0u64;
+        let mut wmers = 0u64;
+        let mut prev_start = 0usize;
+        let mut tail: std::collections::VecDeque<(u64, usize, usize)> = std::collections::VecDeque::new();
+        let mut problem: Option<String> = None;
+        loop {
+            match (a.next(), b.next()) {
+                (None, None) => break,
+                (Some(x), Some(y)) => {
+                    runs += 1;
+                    wmers += x.3.len() as u64;
+                    if (x.0, x.1, x.2) != y {
+                        problem = Some(format!("run #{}: k-mer reporting iterator {:?} vs plain {:?}", runs, (x.0, x.1, x.2), y));
+                        break;
+                    }
+                    if y.1 < prev_start || y.2 > len || y.1 >= y.2 {
+                        problem = Some(format!("run #{} = {:?}: positions not increasing / outside the sequence of {} bases", runs, y, len));
+                        break;
+                    }
+                    prev_start = y.1;
+                    if tail.len() == 64 {
+                        tail.pop_front();
+                    }
+                    tail.push_back(y);
+                }
+                (x, y) => {
+                    problem = Some(format!("one iterator ended before the other after {} runs: {:?} / {:?}", runs, x.map(|v| (v.0, v.1, v.2)), y));
+                    break;
+                }
+            }
+        }
+        (runs, wmers, tail, problem)
+    });
+    match r {
+        Err(p) => st.violate(&panic_sig(&p), p, case),
+        Ok((runs, wmers, tail, problem)) => {
+            st.set_extra("runs_compared", Json::Int(runs as i128));
+            if let Some(p) = problem {
+                st.violate("minimiser.gigabases", p, case);
+            } else if wmers != expected_wmers {
+                st.violate("kmermin.wmers:gigabases", format!("{} w-mers attached, {} valid windows exist", wmers, expected_wmers), case);
+            } else {
+                // runs that lie entirely after the N: brute force on the slice after it
+                let off = n_pos + 1;
+                let exp: Vec<(u64, usize, usize)> = model::minimiser_runs(&seq[off..], w, m).into_iter().map(|(v, s0, e)| (v, s0 + off, e + off)).collect();
+                let got: Vec<(u64, usize, usize)> = tail.iter().copied().filter(|r| r.1 >= off).collect();
+                let n = got.len().min(exp.len());
+                if n == 0 || got[got.len() - n..] != exp[exp.len() - n..] {
+                    st.violate("minimiser.runs:gigabases", format!("the last {} runs differ from the brute force on the tail", n), case);
+                }
+            }
+        }
+    }
+    st
+}
